@@ -46,10 +46,13 @@ def _key(sizes=(16, 24, 32)):
 # ------------------------------------------------------------------ ciphers
 def _cipher_case():
     return st.one_of(
-        st.fixed_dictionaries({"w": st.just("ecb"), "key": _key(), "blocks": st.integers(0, 12), "seed": st.binary(min_size=16, max_size=16)}),
+        st.fixed_dictionaries({"w": st.just("ecb"), "key": _key(), "blocks": st.one_of(*([st.integers(0, 12)] * 15 + [st.sampled_from([4096, 4097])])), "seed": st.binary(min_size=16, max_size=16)}),
+        # messages longer than 64 KiB (a wrapper that feeds the cipher in pieces must not show)
+        st.fixed_dictionaries({"w": st.just("long"), "mode": st.sampled_from(["cbc", "ctr", "ctr"]), "key": _key(), "n": st.sampled_from([65536, 65552, 65537, 65551, 131073]),
+                               "iv": st.binary(min_size=16, max_size=16), "seed": st.binary(min_size=8, max_size=8)}),
         st.fixed_dictionaries({"w": st.just("cbc"), "key": _key(), "msg": _msg(), "iv": st.one_of(st.none(), st.binary(min_size=16, max_size=16)), "bad_iv": st.integers(0, 40)}),
         st.fixed_dictionaries({"w": st.just("ctr"), "key": _key(), "msg": _msg(), "nonce": st.binary(min_size=16, max_size=16), "high": st.booleans()}),
-        st.fixed_dictionaries({"w": st.just("xts"), "key": _key((32, 64)), "units": st.integers(1, 40), "extra": st.sampled_from([0, 0, 0, 1, 7, 15]), "tweak": st.binary(min_size=16, max_size=16), "seed": st.binary(min_size=8, max_size=8)}),
+        st.fixed_dictionaries({"w": st.just("xts"), "key": _key((32, 64)), "units": st.one_of(*([st.integers(1, 40)] * 11 + [st.sampled_from([4095, 4096, 4097, 8193])])), "extra": st.sampled_from([0, 0, 0, 1, 7, 15]), "tweak": st.binary(min_size=16, max_size=16), "seed": st.binary(min_size=8, max_size=8)}),
         st.fixed_dictionaries({"w": st.just("ccm"), "key": _key(), "msg": _msg(), "nonce_len": st.integers(7, 13), "nonce_seed": st.binary(min_size=13, max_size=13), "aad": st.binary(max_size=64), "tag": st.sampled_from([4, 6, 8, 10, 12, 14, 16]), "flip": st.integers(0, 1 << 16)}),
         st.fixed_dictionaries({"w": st.just("wrap"), "kek": _key(), "n": st.integers(2, 10), "seed": st.binary(min_size=8, max_size=8), "flip": st.integers(0, 1 << 16)}),
         st.fixed_dictionaries({"w": st.just("sm4"), "key": st.binary(min_size=16, max_size=16), "msg": _msg(), "iv": st.one_of(st.none(), st.binary(min_size=16, max_size=16))}),
@@ -76,9 +79,9 @@ def run_cipher(case, o: Oracle) -> None:
         msg = _stretch(bytes(case["seed"]), 16 * n)
         with o.spsdk("ecb"):
             ct = S.aes_ecb_encrypt(key, msg)
-            o.eq("ecb", "ciphertext", ct, R.ecb_encrypt(key, msg))
+            o.eq("ecb", "ciphertext", ct, R.ecb_encrypt(key, msg, fast=n > 256))
             o.eq("ecb", "inverse", S.aes_ecb_decrypt(key, ct), msg)
-            o.eq("ecb", "decrypt", S.aes_ecb_decrypt(key, msg), R.ecb_decrypt(key, msg))
+            o.eq("ecb", "decrypt", S.aes_ecb_decrypt(key, msg), R.ecb_decrypt(key, msg, fast=n > 256))
         o.label("klen:%d" % len(key))
         o.nontrivial(len(key) > 16 or n > 1)
         o.key((w, len(key), n, hashlib.sha256(msg + key).hexdigest()[:8]))
@@ -122,6 +125,32 @@ def run_cipher(case, o: Oracle) -> None:
             o.label("nonaligned")
         o.nontrivial(len(msg) % 16 != 0 or case["high"] or len(key) > 16)
         o.key((w, len(key), len(msg) % 16, case["high"], hashlib.sha256(msg + key).hexdigest()[:8]))
+    elif w == "long":
+        key, iv, mode = bytes(case["key"]), bytes(case["iv"]), case["mode"]
+        n = case["n"] if mode == "ctr" else case["n"] // 16 * 16
+        msg = _stretch(bytes(case["seed"]), n)
+        aes = R.Aes(key, True)
+        with o.spsdk("long"):
+            if mode == "cbc":
+                ct = S.aes_cbc_encrypt(key, msg, iv)
+                o.eq("long", "cbc_length", len(ct), n)
+                # every block is E(plaintext block xor previous ciphertext block): checked around the 64 KiB marks and at the ends
+                for i in sorted({0, 1, 4094, 4095, 4096, 4097, n // 16 - 1} & set(range(n // 16))):
+                    prev = iv if i == 0 else ct[16 * i - 16 : 16 * i]
+                    o.eq("long", "cbc_block", ct[16 * i : 16 * i + 16], aes.enc(R.xor(msg[16 * i : 16 * i + 16], prev)))
+                o.eq("long", "cbc_inverse", S.aes_cbc_decrypt(key, ct, iv), msg)
+            else:
+                ct = S.aes_ctr_encrypt(key, msg, iv)
+                o.eq("long", "ctr_length", len(ct), n)
+                c0 = int.from_bytes(iv, "big")
+                for i in sorted({0, 1, 4094, 4095, 4096, 4097, (n - 1) // 16} & set(range((n + 15) // 16))):
+                    ks = aes.enc(((c0 + i) % (1 << 128)).to_bytes(16, "big"))
+                    blk = msg[16 * i : 16 * i + 16]
+                    o.eq("long", "ctr_block", ct[16 * i : 16 * i + len(blk)], R.xor(blk, ks[: len(blk)]))
+                o.eq("long", "ctr_inverse", S.aes_ctr_decrypt(key, ct, iv), msg)
+        o.label("long_message", "long:" + mode)
+        o.nontrivial(True)
+        o.key((w, mode, len(key), n, hashlib.sha256(msg[:64] + key + iv).hexdigest()[:8]))
     elif w == "xts":
         key, tweak = bytes(case["key"]), bytes(case["tweak"])
         if key[: len(key) // 2] == key[len(key) // 2 :]:
@@ -133,6 +162,8 @@ def run_cipher(case, o: Oracle) -> None:
             ct = S.aes_xts_encrypt(key, msg, tweak)
             o.eq("xts", "ciphertext", ct, ref)
             o.eq("xts", "inverse", S.aes_xts_decrypt(key, ct, tweak), msg)
+        if n > 65536:
+            o.label("long_message", "long:xts")
         if n % 16:
             o.label("nonaligned", "xts_stealing")
         o.label("klen:%d" % len(key))
